@@ -30,6 +30,7 @@ pub fn step(sh: Shape, barrier: usize, deps: Deps, new_r: usize, new_w: usize) {
     let perm = if deps == Deps::None { [0, 1, 2, 3, 4, 5, 6, 7] } else { any_permutation(n) };
     let b = pre_state_ids(sh, barrier, if deps == Deps::None { None } else { Some(&perm) });
     let r = any_rids(new_r);
+    assume_sorted_dedup(&r); // what insert passes on; the writes come as declared
     let w = any_rids(new_w);
     let time = any_time();
 
